@@ -295,8 +295,9 @@ pub fn stale_content() -> Vec<u8> {
 /// 0 regular file; 1 stdin at once; 2 regular file (callers use it for "file in, file out");
 /// 3 a named pipe as INPUT; 4 `/dev/stdin` as INPUT with a pipe on stdin; 5 stdin in small pieces;
 /// 6 a regular file whose name is `-` in the working directory (INPUT is a file name — the tools
-/// document no other reading of it), with an EMPTY pipe on stdin.
-pub const INPUT_MODES: u64 = 7;
+/// document no other reading of it), with an EMPTY pipe on stdin; 7 stdin is a regular file of
+/// which an earlier reader has already consumed a leading line (the input starts at that offset).
+pub const INPUT_MODES: u64 = 8;
 
 pub struct InputPlan {
     /// the INPUT argument, if the mode uses one
@@ -310,9 +311,17 @@ pub fn plan_input(mode: u8, dir: &std::path::Path, file_name: &str, content: &[u
     let path = dir.join(hostile_file_name(content.len() / 3 + mode as usize, file_name));
     match mode {
         1 => InputPlan { path_arg: None, stdin: Some(content.to_vec()), feed: Default::default() },
-        3 => InputPlan { path_arg: Some(path.display().to_string()), stdin: None, feed: crate::cli::Feed { stdin_chunk: 0, fifos: vec![(path, content.to_vec(), chunk)] } },
-        4 => InputPlan { path_arg: Some("/dev/stdin".into()), stdin: Some(content.to_vec()), feed: crate::cli::Feed { stdin_chunk: if content.len() % 2 == 0 { 0 } else { chunk }, fifos: vec![] } },
-        5 => InputPlan { path_arg: None, stdin: Some(content.to_vec()), feed: crate::cli::Feed { stdin_chunk: chunk, fifos: vec![] } },
+        3 => InputPlan { path_arg: Some(path.display().to_string()), stdin: None, feed: crate::cli::Feed { stdin_chunk: 0, fifos: vec![(path, content.to_vec(), chunk)], stdin_file: None } },
+        4 => InputPlan { path_arg: Some("/dev/stdin".into()), stdin: Some(content.to_vec()), feed: crate::cli::Feed { stdin_chunk: if content.len() % 2 == 0 { 0 } else { chunk }, fifos: vec![], stdin_file: None } },
+        5 => InputPlan { path_arg: None, stdin: Some(content.to_vec()), feed: crate::cli::Feed { stdin_chunk: chunk, fifos: vec![], stdin_file: None } },
+        7 => {
+            // `{ read -r header; tool; } < file`: what the earlier reader consumed is NOT input
+            let consumed: &[u8] = [&b"source,target\n"[..], b"1 2 3 4\n", b"a & b\n", b"\"a header line\"\n"][content.len() % 4];
+            let mut whole = consumed.to_vec();
+            whole.extend_from_slice(content);
+            let _ = std::fs::write(&path, &whole);
+            InputPlan { path_arg: None, stdin: None, feed: crate::cli::Feed { stdin_chunk: 0, fifos: vec![], stdin_file: Some((path, consumed.len() as u64)) } }
+        }
         6 => {
             let _ = std::fs::write(dir.join("-"), content);
             InputPlan { path_arg: Some("-".into()), stdin: Some(Vec::new()), feed: Default::default() }
@@ -321,6 +330,27 @@ pub fn plan_input(mode: u8, dir: &std::path::Path, file_name: &str, content: &[u
             let _ = std::fs::write(&path, content);
             InputPlan { path_arg: Some(path.display().to_string()), stdin: None, feed: Default::default() }
         }
+    }
+}
+
+/// Ways of SPELLING the path of an output file inside `dir` (all name the file the operating
+/// system resolves them to; the harness reads the result back through the same spelling):
+/// plain; with a `.` component; through `sub/..`; through `lnk/..` where lnk is a symbolic link to
+/// a directory two levels down (so `lnk/..` is NOT `dir`); with a doubled separator.
+pub fn spelled_output(dir: &std::path::Path, k: usize, name: &str) -> std::path::PathBuf {
+    match k % 7 {
+        2 => dir.join(".").join(name),
+        3 => {
+            let _ = std::fs::create_dir_all(dir.join("sub dir"));
+            dir.join("sub dir").join("..").join(name)
+        }
+        4 => {
+            let _ = std::fs::create_dir_all(dir.join("real").join("a").join("b"));
+            let _ = std::os::unix::fs::symlink(dir.join("real").join("a").join("b"), dir.join("lnk"));
+            dir.join("lnk").join("..").join(name)
+        }
+        5 => std::path::PathBuf::from(format!("{}//{}", dir.display(), name)),
+        _ => dir.join(name),
     }
 }
 
